@@ -18,9 +18,10 @@ ASSUMPTIONS = ['refmodel/vector.py (independent interpreters), refmodel/colors.p
                'TikZ has no page box: geometry compared modulo one translation (DESIGN 4.1)',
                'the sixth PDF xref entry and the endofbj typo of the Info object are outside the statement (DESIGN 4.1)',
                'relative tolerance 1e-9 on page sizes, 0.005 on opacity']
-REQUIRED = ['evaluations', 'documents_checked', 'kind:svg', 'kind:eps', 'kind:pdf', 'kind:tex', 'fractional_scale', 'scale_below_1',
+REQUIRED = ['cases_under_python_O', 'evaluations', 'documents_checked', 'kind:svg', 'kind:eps', 'kind:pdf', 'kind:tex', 'fractional_scale', 'scale_below_1',
             'with_background', 'svg_group_transform']
 TIMEOUT = {'quick': 3600, 'thorough': 21600}
+OPT_SLICE = {'quick': 120, 'thorough': 1500}     # cases re-run by one more worker under python -O (core.run_sharded)
 SCALES = [0.5, 0.7, 1, 1, 2, 2.5, 3.3, 10, 4, 0.25, 1.5, 7.75, 0.1 + 0.2, 1 / 3, 0.001, 1234.5678, 2.0000000000000004, 1e-05, 100]
 
 
